@@ -46,18 +46,33 @@ pub fn pacing_family(r: &mut Rng, c09: bool) -> Vec<PacingSpec> {
     v
 }
 
-pub fn all_kinds() -> Vec<(Kind, u32)> {
+pub fn all_kinds() -> Vec<(KindChoice, u32)> {
+    use KindChoice::*;
     vec![
-        (Kind::Node, 8),
-        (Kind::Field, 4),
-        (Kind::Raw, 4),
-        (Kind::Cell, 2),
-        (Kind::Once, 1),
-        (Kind::Leaf, 1),
-        (Kind::LeafLock, 1),
-        (Kind::LeafStatic, 1),
-        (Kind::SetHolder, 1),
+        (Fixed(Kind::Node), 8),
+        (Fixed(Kind::Field), 4),
+        (Fixed(Kind::Raw), 4),
+        (Fixed(Kind::Cell), 2),
+        (Fixed(Kind::Once), 1),
+        (Fixed(Kind::Leaf), 1),
+        (Fixed(Kind::LeafLock), 1),
+        (Fixed(Kind::LeafStatic), 1),
+        (Fixed(Kind::SetHolder), 1),
+        (Slice, 2),
+        (Swh, 2),
+        (Lay, 2),
     ]
+}
+
+fn is_node(k: &KindChoice) -> bool {
+    *k == KindChoice::Fixed(Kind::Node)
+}
+fn choice_needs_trace(k: &KindChoice) -> bool {
+    match k {
+        KindChoice::Fixed(k) => k.needs_trace(),
+        KindChoice::Slice | KindChoice::Swh => true,
+        _ => false,
+    }
 }
 
 /// The base swarm: every knob drawn per run.
@@ -88,10 +103,13 @@ pub fn base_swarm(r: &mut Rng) -> GenCfg {
     }
     let mut kinds = all_kinds();
     for k in kinds.iter_mut() {
-        if k.0 != Kind::Node && r.chance(1, 3) {
+        if !is_node(&k.0) && r.chance(1, 3) {
             k.1 = 0;
         }
     }
+    w_op[OW_BUILDER] = if r.chance(1, 2) { 1 } else { 0 };
+    w_op[OW_CONVERT] = if r.chance(1, 3) { 1 } else { 0 };
+    w_op[OW_ZST] = if r.chance(1, 3) { 1 } else { 0 };
     let mut w_event = [0u32; EW_N];
     w_event[EW_MUTATE] = 10;
     w_event[EW_COLLECT] = 10;
@@ -111,6 +129,7 @@ pub fn base_swarm(r: &mut Rng) -> GenCfg {
         w_cb: [4, 6, 1, 1, 0],
         w_op,
         kinds,
+        conv_bias: [0, 0, 2, 6][r.below(4)],
         w_call: [6, 3, 2, 4, 2],
         w_marked: [2, 2, 3],
         step,
@@ -226,7 +245,7 @@ pub fn swarm(prop: &str, seed: u64) -> (GenCfg, Suffix, Shape) {
             c.w_event[EW_ADJUST] = 3;
             c.w_event[EW_FAULT] = if r.chance(1, 2) { 2 } else { 0 };
             for k in c.kinds.iter_mut() {
-                if !k.0.needs_trace() {
+                if !choice_needs_trace(&k.0) {
                     k.1 = 4;
                 }
             }
@@ -260,10 +279,41 @@ pub fn swarm(prop: &str, seed: u64) -> (GenCfg, Suffix, Shape) {
             c.w_event[EW_NEW_ARENA] = 1;
             c.w_event[EW_DROP_ARENA] = 1;
             for k in c.kinds.iter_mut() {
-                if matches!(k.0, Kind::SetHolder | Kind::Field) {
+                if matches!(k.0, KindChoice::Fixed(Kind::SetHolder) | KindChoice::Fixed(Kind::Field)) {
                     k.1 = 4;
                 }
             }
+        }
+        "C17" => {
+            // layout-heavy: many leaves of the family, collections in between, arena dropped at the end
+            c.kinds = vec![(KindChoice::Fixed(Kind::Node), 3), (KindChoice::LayClass(0), 6), (KindChoice::LayClass(1), 5), (KindChoice::LayClass(2), 5), (KindChoice::Slice, 1), (KindChoice::Swh, 1)];
+            c.w_op[OW_ALLOC_LINK] = 8;
+            c.w_op[OW_GARBAGE] = 3;
+            c.w_op[OW_UNLINK] = 4;
+            c.w_op[OW_WEAK_LINK] = 2;
+            c.w_op[OW_BUILDER] = 1;
+            c.w_op[OW_ZST] = 1;
+            c.w_op[OW_CONVERT] = 1;
+            c.w_op[OW_BURST] = 0;
+            c.conv_bias = 4;
+            c.max_objs = c.max_objs.min(24);
+            c.quarantine = r.chance(3, 4);
+        }
+        "C18" => {
+            c.w_op[OW_BUILDER] = 10;
+            c.w_op[OW_BURST] = 0;
+            c.max_objs = c.max_objs.min(16);
+            c.events = r.range(10, 60);
+        }
+        "C19" => {
+            c.conv_bias = 12;
+            c.w_op[OW_CONVERT] = 4;
+            c.w_op[OW_ZST] = 4;
+            c.w_op[OW_STASH] = 2;
+            c.w_op[OW_RELINK] = 5;
+            c.w_op[OW_UNLINK] = 5;
+            c.kinds = vec![(KindChoice::Fixed(Kind::Node), 8), (KindChoice::Fixed(Kind::Field), 2), (KindChoice::Slice, 3), (KindChoice::Swh, 3), (KindChoice::Lay, 1)];
+            c.max_handles = c.max_handles.max(2);
         }
         "C20" => {
             c.arenas = r.range(2, 3);
@@ -314,6 +364,9 @@ pub fn nontrivial(prop: &str, flags: &std::collections::BTreeSet<String>, o: &cr
         "C10" => f("C10.barrier-during-marking") || f("C10.adjust-while-positive"),
         "C11" => (o.faults_fired > 0 || o.callback_panics > 0 || o.ctor_failures > 0) && f("C11.collect-after-fault"),
         "C14" => f("C14.handle-op-mid-cycle") || f("C14.foreign") || f("C14.slot-reuse"),
+        "C17" => f("C17.exotic-survived-and-released"),
+        "C18" => f("C18.abandoned") || f("C18.completed-and-collected"),
+        "C19" => f("C19.converted-edge-survived-cycle"),
         "C20" => f("C20.two-mid-cycle"),
         _ => true,
     }
